@@ -90,6 +90,14 @@ def cases(tier, seed):
             if rng.random() < 0.3:
                 n += 1
                 out.append({'id': 'c%d' % n, 'kind': 'eval', 'expr': re.sub(r'\b(head|all|same|o2|o|inner)\b', lambda m: '$reg.' + m.group(1), e), 'input': {}, 'vars': {'reg': d}, 'tags': list(tags) + ['registered']})
+    # heterogeneous arrays: objects after / between scalars, nulls and nested arrays must be found by the pattern and updated
+    het = [[7, {'a': 1}, {'a': 2}], [None, {'a': 1}], ['s', {'a': 1, 'k': 'x'}, 5, {'a': 2}], [[{'a': 1}], {'a': 2}], [True, [1, {'a': 3}]], [{'a': 1}, 7, {'a': 2}], [1, 2, 3, {'a': 9}], [[], {'a': 1}], [{}, 0, {'a': 1}]]
+    for items in het:
+        for t in ['|items|{"x": true}|', '|items|{"x": true}, "a"|', '|items|{}, "a"|', '|**|{"z": 1}|', '|items[a > 0]|{"a": a + 1}|', '|*|{"y": 0}|', '|items[1]|{"w": 2}|', '|items[-1]|{"w": 2}, ["a", "k"]|']:
+            nul = any(x is None for x in items)
+            add('$ ~> %s' % t, {'items': items, 'o': {'items': items}}, ('heterogeneous',) + (('novalue',) if nul else ()) + (('unordered',) if '*' in t else ()))
+            if not nul:
+                add('( $r := $ ~> %s; [$count($r.items[$type($) = "object"]), $r.items[$type($) = "object"].$keys($) ~> $sort()] )' % t, {'items': items}, ('heterogeneous',))
     # transforms and updates through a registered variable
     for i in range(60 if tier == 'quick' else 3000):
         d = doc()
